@@ -54,7 +54,8 @@ func c03Same(a, b ShellResult) bool {
 
 func c03(c *Ctx) {
 	c.Rule = "runnable programs: generated deterministic builtin-only programs (control flow, functions, here-docs, case, arithmetic, pipelines into read, [[ ]] and arrays for bash) and the repository's interpreter test programs without time/pid/randomness/background jobs; each formatted with a sampled printer option set (default, Minify, SingleLine, indent/binary-next-line/case-indent, space-redirects/function-next-line, KeepPadding) and run before/after by interp (in-process) and, for a sample, by real bash; " +
-		"non-trivial = the original prints ≥ 2 lines under the engine and formatting changed the text; distinct by (program, option set)"
+		"non-trivial = the original prints ≥ 2 lines under the engine and formatting changed the text; distinct by (program, option set). " +
+		"Model streams: 4n programs of the fragment F0 ∩ L5 (builtins true : false exit echo set, lists, && || | !, ( ), { }, single-quote and layout noise; bash/posix/mksh) — `run`: interp.Runner vs L4 parse → toL5 → L5 runFile; `specfmt`: format with one of 8 option sets and compare the runs, on both sides; non-trivial there = ≥ 3 lines of source"
 	seeds := repoSeeds()
 	type job struct {
 		src  string
